@@ -354,6 +354,8 @@ class Transpose(_Overwritable):
         t.cores.items, t.cores.length, t.cores.fn = None, d, core
         t.row_dims.items, t.row_dims.length, t.row_dims.fn = None, d, (lambda j: z3.If(P(j), fc(j), fr(j)))
         t.col_dims.items, t.col_dims.length, t.col_dims.fn = None, d, (lambda j: z3.If(P(j), fr(j), fc(j)))
+        # ghost: a transposed tensor train used as the bra of an inner product remembers whether it was conjugated
+        t.conjT = bool(inst['conjugate'])
         return t
 
 
@@ -710,8 +712,16 @@ class MatMul(Contract):
         if dec is None:
             raise ForkRequest(key, self._all_one(me, o))
         if dec:
+            # an inner product <left| ... |right>: contracts that speak about sesquilinear forms (Rayleigh quotients, Lanczos
+            # coefficients) check here that the bra was obtained by a *conjugate* transposition
+            hook = getattr(ex.ctx.contract, 'on_scalar_product', None)
+            if hook is not None:
+                hook(ex, state, A['self'], A['tt_mul'], line)
             return SNum('inner', cplx=fresh('inner_cx', 'bool'))
-        return build_tt_from_cores(state, cores, d)
+        r = build_tt_from_cores(state, cores, d)
+        if 'conjT' in A['self'].__dict__:
+            r.conjT = A['self'].__dict__['conjT']         # (bra . operator) is still a bra
+        return r
 
 
 @register
